@@ -248,7 +248,7 @@ JudgeOwn(post, obs, afterStabilise) ==
   \cup {Viol("C12", <<"node", n, "was released although it is still referenced">>) : n \in rel \ want}
 
 \* binding C: the snapshot must equal the spec state on the engine's own variables
-Diverge(post, sn) ==
+Diverge(post, sn, order) ==
   LET N == Min(post.n, Len(sn.valid))
       live == {n \in 1..N : n \notin SeqSet(sn.rel)}
       D(name, ok) == IF ok THEN {} ELSE {name}
@@ -277,7 +277,7 @@ Diverge(post, sn) ==
      \cup D("stats", /\ post.stats.created = sn.created /\ post.stats.changed = sn.changed
                      /\ post.stats.recomputed = sn.recomputed /\ post.stats.invalidated = sn.invalidated
                      /\ post.stats.becameNec = sn.becamenec /\ post.stats.becameUnnec = sn.becameunnec)
-     \cup D("order", "order" \notin DOMAIN sn \/ sn.order = <<>> \/ post.order = sn.order)
+     \cup D("order", "order" \notin DOMAIN sn \/ sn.order = <<>> \/ order = sn.order)
 
 ---------------------------------------------------------------------------
 TraceInit == st = InitState(DefaultMaxH) /\ l = 1 /\ nbad = 0 /\ ndiv = 0
@@ -305,7 +305,7 @@ TraceStep ==
                                 \cup (IF e.a = "stabilise" THEN JudgeInv(pre, obs, coneB) \cup JudgeDlv(pre, obs) \cup JudgeInReads(pre, obs) \cup JudgeMemo(pre, obs) \cup JudgeCut(pre, obs) ELSE {})
                                 \cup JudgeAudit(post, obs) \cup JudgeOwn(post, obs, e.a = "stabilise")
                            ELSE {})
-              div == IF obs.panic = "" /\ Ok(post) THEN Diverge(post, obs.snap)
+              div == IF obs.panic = "" /\ Ok(post) THEN Diverge(post, obs.snap, IF e.a = "stabilise" THEN pre.order ELSE <<>>)
                      ELSE IF obs.panic = "" /\ ~Ok(post) THEN {"model_panics:" \o post.panic} ELSE {}
           IN /\ st' = Settle(post)
              /\ nbad' = nbad + Cardinality(bad)
